@@ -634,8 +634,11 @@ func runC20(a *runArgs) error {
 		}
 		r := rand.New(rand.NewSource(a.Seed))
 		if len(rp.Replay.Items) > 0 {
-			// a concurrent schedule is regenerated from its seed (the schedule is a function of the PRNG state)
-			return fmt.Errorf("concurrent schedules are replayed with -seed (case index in the replay file)")
+			emitConc(c20ReplayConc(wdir, rp.Replay.Items))
+			cw.flush()
+			m.Cases = idx
+			m.Files = cw.files
+			return writeJSON(filepath.Join(a.Out, "meta.json"), m)
 		}
 		emit(c20RunHistory(wdir, r, rp.Replay.Ops, "replay", 0))
 	} else {
